@@ -104,7 +104,10 @@ def cast_pyvalue_to_os_tensor(pyvalue, dtype=None):
     if _promotable(pyvalue):
         if dtype is None:
             dtype = _get_dtype(pyvalue)
-        return tensor.Tensor(np.array(pyvalue, dtype=dtype))
+        # Convert with the semantics of ONNX Cast (what the converter emits for the same
+        # expression: Constant + CastLike): an out-of-range int wraps around, where
+        # np.array(-3, dtype=np.uint8) raises OverflowError under NumPy 2.
+        return tensor.Tensor(np.asarray(pyvalue).astype(dtype))
     return pyvalue
 
 
